@@ -904,13 +904,28 @@ def _run_precentered_mixed(case, ctx):
     """precentered=True where the shortcut cannot apply (traces on one side only) or where both roles are one object"""
     import mdtraj as md
     import warnings
-    variant = ["target-only", "reference-only", "same-object"][(case["i"] // len(WKINDS)) % 3]
+    variant = ["target-only", "reference-only", "same-object", "mass-weighted-centring"][(case["i"] // len(WKINDS)) % 4]
     ctx.observe("precentered.mixed", variant)
     w = _build(case, sel="all")
     t, ref = _traj(w.X), _traj(w.Y)
     with warnings.catch_warnings():
         warnings.simplefilter("ignore")
-        if variant == "same-object":
+        if variant == "mass-weighted-centring":
+            # both sides centred on their centre of MASS (heavy atoms on one side of the structure: it is not the centroid);
+            # the shortcut then has nothing it may reuse and the result must still be the optimal RMSD
+            from mdtraj.core import element as elem
+            n = w.X.shape[1]
+            top = md.Topology()
+            ch = top.add_chain()
+            for k in range(n):
+                top.add_atom("X%d" % k, elem.iodine if k < max(1, n // 3) else elem.hydrogen, top.add_residue("LIG", ch))
+            t, ref = md.Trajectory(np.array(w.X, copy=True), top), md.Trajectory(np.array(w.Y, copy=True), top)
+            t.center_coordinates(mass_weighted=True)
+            ref.center_coordinates(mass_weighted=True)
+            Xc, Yc = np.array(t.xyz, copy=True), np.array(ref.xyz, copy=True)
+            r = md.rmsd(t, ref, w.frame, precentered=True)
+            wc = _clone(w, X=Xc, Y=Yc)
+        elif variant == "same-object":
             t.center_coordinates()
             Xc = np.array(t.xyz, copy=True)
             fr = int(w.rng.integers(0, len(Xc)))
